@@ -18,7 +18,7 @@ func runC08(r *Run) error {
 	defer closeEnv()
 	logs := 6
 	if r.Tier == "thorough" {
-		logs = 60
+		logs = 240
 	}
 	for li := 0; li < logs; li++ {
 		writers := 1 + r.Rng.Intn(3)
